@@ -137,6 +137,9 @@ func earlierIteratorCheck(build func() Inst, st *Stats) *Viol {
 	b0 := build().(Box)
 	n := len(b0.ExpSeq())
 	for _, o := range b0.Ops() {
+		if o.N == "New" {
+			continue // a constructor call makes another container; the earlier iterator belongs to the old one
+		}
 		for k := 0; k <= n+1; k++ {
 			inflightSeq.Add(1)
 			b := build().(Box)
